@@ -59,6 +59,11 @@ def configure(p):
     P.clear()
     P.update(p)
     C = common.load(p)
+    build_edits()
+    stepbudget.watch(diffmod.find_diff_start, diffmod.find_diff_end)
+
+
+def build_edits():
     del EDITS[:]
     sch = C.schema
     ntext = [0]
@@ -75,7 +80,6 @@ def configure(p):
             EDITS.append((pa, "mark"))
         if n.type.name == "heading":
             EDITS.append((pa, "attr"))
-    stepbudget.watch(diffmod.find_diff_start, diffmod.find_diff_end)
 
 
 def mk_text(k, c0, c1, c2):
@@ -186,8 +190,12 @@ def obligations(tier, seed):
         kmax = 3
     T = 150 if tier == "quick" else 900
     for p in parts:
-        d = common.templates.doc(p["schema"], p["doc"])
-        ne = len(paths(d)) * 4
+        global C
+        P.clear()
+        P.update(dict(p, ntext=2))
+        C = common.load(p)
+        build_edits()
+        ne = len(EDITS)
         nchunk = 4 if tier == "quick" else 8
         step = (ne + nchunk - 1) // nchunk
         for mode in ("shared", "fresh", "swapped"):
